@@ -169,6 +169,37 @@ def run(F, rep):
         lpp = [l for l in g.walk() if l.get('k') == 'For']
         rep.check(bool(lpp) and 'componentCount()' in render(role(lpp[0], 'cond')), 'C19.L1', '%s|tree' % g.short, g.where(), 'children are not traversed', 'children traversed (stops only once an unlinked unit is found)')
 
+    rep.rule('C19.I5', 'in fixVariableInterfaces the required interface is worked out for EVERY variable with equivalences: inside the loop the call of determineInterfaceType depends on nothing but the loop '
+                       '(a shortcut for variables that already permit everything also skips the report of unreachable equivalences)')
+    for c in det:
+        lp_ = [a for a in fx.ancestors(c) if a.get('k') in ('RangeFor', 'For', 'While')]
+        if not lp_:
+            rep.fail('C19.I5', 'determineInterfaceType|not in a loop', fx.where(c), 'determineInterfaceType is no longer called inside the loop over the variables')
+            continue
+        base = set(ff(fx).rendered_conds_at(lp_[0]['c'][1] if lp_[0].get('k') == 'RangeFor' else role(lp_[0], 'cond')) or set())
+        extra = sorted((t, tr) for t, tr in (set(ff(fx).rendered_conds_at(c) or set()) - base) if 'nullptr' not in t and not (lp_[0].get('k') != 'RangeFor' and t == render(role(lp_[0], 'cond'))))
+        rep.check(not extra, 'C19.I5', 'determineInterfaceType|unconditional', fx.where(c), 'the required interface is only worked out when %s' % ' and '.join('`%s` is %s' % e for e in extra)[:160], 'for every variable')
+
+    rep.rule('C19.L3', 'a verdict that accumulates over the component tree (`status = f(child) && status`) is never overwritten afterwards by a plain assignment: '
+                       'a failure found in an encapsulated child must survive until linkUnits/fixVariableInterfaces return')
+    n_l3 = 0
+    for g in F.funcs.values():
+        if not g.file.endswith(('/utilities.cpp', '/model.cpp')):
+            continue
+        for v in g.walk():
+            if v.get('k') != 'Var' or v.get('t') != 'bool':
+                continue
+            asg = [x for x in g.walk() if ((x.get('k') == 'Bin' and x.get('op') == '=') or x.get('k') == 'CAssign') and x['c'][0].get('k') == 'Ref' and x['c'][0].get('d') == v['d']]
+            selfref = [x for x in asg if x.get('k') == 'CAssign' or any(r.get('k') == 'Ref' and r.get('d') == v['d'] for r in walk(x['c'][1]))]
+            if not selfref:
+                continue
+            n_l3 += 1
+            first = min(x.get('l', 0) for x in selfref)
+            later = [x for x in asg if x not in selfref and x.get('l', 0) > first and x['c'][1].get('k') != 'Bool']
+            rep.check(not later, 'C19.L3', '%s|%s' % (g.short, v['n']), g.where(later[0]) if later else g.where(v), '%s: `%s` overwrites the verdict accumulated in %s' % (g.short, render(later[0])[:60] if later else '', v['n']), 'only accumulated')
+    if n_l3 < 1:
+        raise AnalysisBroken('C19.L3: accumulating verdicts vanished (%d found)' % n_l3)
+
     # ------------------------------------------------------------------ I4: what "permits" means
     rep.rule('C19.I4', 'Variable::permitsInterfaceType decides by comparing whole strings (the stored value equals the required one or is public_and_private): no substring search, '
                        'which would let an invalid stored value such as "public,private" permit everything and make fixVariableInterfaces leave it in place')
